@@ -22,7 +22,7 @@ def _raising(i):
     return bool(G.raises_in(i.body))
 
 
-def _features(region, delegates_frombuffer=False):
+def _features(region, delegates_frombuffer=False, alg=None):
     ifs = [i for i in _ifs(region) if _raising(i)]
     txts = [(i, [ast.unparse(d) for d in G.disjuncts(i.test)]) for i in ifs]
 
@@ -46,7 +46,7 @@ def _features(region, delegates_frombuffer=False):
                 post = True
             if isinstance(op, (ast.Gt, ast.GtE, ast.Lt, ast.LtE)):
                 big, small = (a, b) if isinstance(op, (ast.Gt, ast.GtE)) else (b, a)
-                form = _lin_sub(_lin(big), _lin(small))
+                form = _lin_sub(alg.lin(big, i.lineno), alg.lin(small, i.lineno)) if alg is not None else _lin_sub(_lin(big), _lin(small))
                 off_pos = any(v > 0 for k, v in form.items() if isinstance(k, str) and 'offset' in k)
                 if form.get('length', 0) > 0 and off_pos:
                     lenbeyond = True
@@ -108,7 +108,7 @@ def rule_E5(ctx):
             if deleg and fb is not None:
                 txt = ast.unparse(fb.node)
                 deleg = '< 0' in txt and '> len(' in txt
-        feat = _features(region, delegates_frombuffer=False)
+        feat = _features(region, delegates_frombuffer=False, alg=_RegionAlg(f, region))
         if nm == '_setfile' and deleg:
             # the delegated half is checked by frombuffer; the sliced half must check by itself (post-check)
             pass
@@ -250,6 +250,82 @@ def _fmt_lin(a):
     return ' + '.join(f'{v}*{k}' if k != 1 else str(v) for k, v in sorted(a.items(), key=lambda kv: str(kv[0]))) or '0'
 
 
+class _RegionAlg:
+    """Linear forms over the names of one ingest region, looking through its arithmetic locals (`end = offset + length`,
+    `available = len(data) * 8`) and through `q, r = divmod(X, 8)` (X == 8*q + r)."""
+
+    def __init__(self, f, region):
+        import copy
+        self.copy = copy
+        assigns = [x for s in region for x in ast.walk(s) if isinstance(x, ast.Assign)]
+        defs = {}
+        for x in assigns:
+            for t in x.targets:
+                if isinstance(t, ast.Name):
+                    defs.setdefault(t.id, []).append(x)
+        self.assigns, self.defs = assigns, defs
+        self.fparams = set(f.params())
+        self.tuple_bound = {e.id for x in assigns for t in x.targets if isinstance(t, ast.Tuple) for e in t.elts if isinstance(e, ast.Name)}
+        self.identities = []
+        for x in assigns:
+            t = x.targets[0]
+            if isinstance(t, ast.Tuple) and len(t.elts) == 2 and all(isinstance(e, ast.Name) for e in t.elts) and isinstance(x.value, ast.Call) \
+                    and ast.unparse(x.value.func) == 'divmod' and len(x.value.args) == 2 and isinstance(x.value.args[1], ast.Constant) and x.value.args[1].value == 8:
+                xnames = {y.id for y in ast.walk(x.value.args[0]) if isinstance(y, ast.Name)}
+                if t.elts[0].id in xnames or t.elts[1].id in xnames:
+                    continue          # `byteoffset, offset = divmod(offset, 8)` re-binds its own operand: X cannot be named afterwards
+                self.identities.append((t.elts[0].id, t.elts[1].id, x.value.args[0], x.lineno))
+
+    def arith(self, e):
+        if isinstance(e, (ast.Name, ast.Constant)):
+            return True
+        if isinstance(e, ast.Attribute):
+            return self.arith(e.value)
+        if isinstance(e, ast.BinOp) and isinstance(e.op, (ast.Add, ast.Sub, ast.Mult, ast.FloorDiv)):
+            return self.arith(e.left) and self.arith(e.right)
+        if isinstance(e, ast.IfExp):
+            return False
+        if isinstance(e, ast.Call) and (ast.unparse(e.func) == 'len' or (isinstance(e.func, ast.Attribute) and e.func.attr == 'seek')):
+            return True
+        return False
+
+    def expand(self, e, line, depth=0):
+        """substitute locals by their arithmetic definition: the only one, or - for a local set in several branches - the nearest
+        one before ``line``"""
+        if depth > 4:
+            return e
+        alg = self
+
+        class Sub(ast.NodeTransformer):
+            def visit_Name(self, n):
+                ds = [d for d in alg.defs.get(n.id, []) if d.lineno < line]
+                if isinstance(n.ctx, ast.Load) and ds and n.id not in alg.fparams and n.id not in alg.tuple_bound:
+                    d = max(ds, key=lambda y: y.lineno)
+                    if isinstance(d.targets[0], ast.Name) and alg.arith(d.value) and not any(isinstance(y, ast.Name) and y.id == n.id for y in ast.walk(d.value)):
+                        return alg.expand(alg.copy.deepcopy(d.value), d.lineno, depth + 1)
+                return n
+        return Sub().visit(self.copy.deepcopy(e))
+
+    def lin(self, e, line):
+        form = _lin(self.expand(e, line))
+        for q, rr, X, ln in self.identities:
+            if ln < line and form.get(q, 0) and form.get(q, 0) == 8 * form.get(rr, 0):
+                k = form.pop(rr)
+                form.pop(q)
+                for a, v in _lin(self.expand(X, ln)).items():
+                    form[a] = form.get(a, 0) + k * v
+        return {a: v for a, v in form.items() if v}
+
+    def resolve(self, e, line):
+        """a local that just names a sliced / converted value: look through it"""
+        seen = 0
+        while isinstance(e, ast.Name) and len(self.defs.get(e.id, [])) == 1 and self.defs[e.id][0].lineno < line and seen < 4:
+            e = self.defs[e.id][0].value
+            seen += 1
+        return e
+
+
+
 def _ceil_bytes(e):
     """For `(E + 7) // 8 [- K]` return the linear form of E - 8*K (the number of bits the byte count covers, counted from
     the lower byte bound); None if the expression has another shape."""
@@ -287,24 +363,42 @@ def rule_WIN(ctx):
     if not bio:
         raise AnalysisError('Bits._setauto: BytesIO branch not found')
     regions.append(('_setauto[BytesIO]', sa, bio[0].body))
+    import copy
     for nm, f, region in regions:
-        stores = [x for s in region for x in ast.walk(s) if isinstance(x, ast.Assign) and ast.unparse(x.targets[0]) == 'self._bitstore']
+        alg = _RegionAlg(f, region)
+        assigns, defs, lin, resolve = alg.assigns, alg.defs, alg.lin, alg.resolve
+        stores = [x for x in assigns if ast.unparse(x.targets[0]) == 'self._bitstore']
         windows = []
         for st in stores:
-            bit_hi = byte_lo = byte_hi = None
-            for x in ast.walk(st.value):
-                if isinstance(x, ast.Call) and isinstance(x.func, ast.Attribute) and x.func.attr.startswith('getslice') and len(x.args) == 2:
-                    if not (isinstance(x.args[1], ast.Constant) and x.args[1].value is None):
-                        bit_hi = x.args[1]
-                elif isinstance(x, ast.Subscript) and isinstance(x.slice, ast.Slice) and x.slice.upper is not None:
-                    inside_frombytes = any(isinstance(c, ast.Call) and ast.unparse(c.func).endswith('frombytes') and any(x is y for a in c.args for y in ast.walk(a))
-                                           for c in ast.walk(st.value))
+            bit_his, byte_lo, byte_hi = [], None, None
+            val = st.value
+            nodes = list(ast.walk(val))
+            # look through locals used as the argument of frombytes / as the sliced object
+            for x in list(nodes):
+                if isinstance(x, ast.Call) and ast.unparse(x.func).endswith('frombytes') and x.args and isinstance(x.args[0], ast.Name):
+                    rv = resolve(x.args[0], st.lineno)
+                    if rv is not x.args[0]:
+                        nodes += [('frombytes-arg', y) for y in ast.walk(rv)]
+            for x in nodes:
+                tagged = isinstance(x, tuple)
+                y = x[1] if tagged else x
+                if isinstance(y, ast.Call) and isinstance(y.func, ast.Attribute) and y.func.attr.startswith('getslice') and len(y.args) == 2:
+                    if not (isinstance(y.args[1], ast.Constant) and y.args[1].value is None):
+                        bit_his.append(y.args[1])
+                elif isinstance(y, ast.Subscript) and isinstance(y.slice, ast.Slice) and y.slice.upper is not None:
+                    inside_frombytes = tagged or any(isinstance(c, ast.Call) and ast.unparse(c.func).endswith('frombytes') and any(y is z for a in c.args for z in ast.walk(a))
+                                                     for c in ast.walk(val))
                     if inside_frombytes:
-                        byte_lo, byte_hi = x.slice.lower, x.slice.upper
+                        byte_lo, byte_hi = y.slice.lower, y.slice.upper
                     else:
-                        bit_hi = x.slice.upper
-            if bit_hi is not None:
-                windows.append((st, bit_hi, byte_lo, byte_hi))
+                        bit_his.append(y.slice.upper)
+            for bh in bit_his:
+                # a window end that is a local with several definitions: one window per definition
+                if isinstance(bh, ast.Name) and len(defs.get(bh.id, [])) > 1:
+                    for d in defs[bh.id]:
+                        windows.append((st, d.value, byte_lo, byte_hi, d.lineno + 1))
+                else:
+                    windows.append((st, bh, byte_lo, byte_hi, st.lineno))
         if not windows:
             raise AnalysisError(f'{nm}: no bounded window found in the store of self._bitstore (needs a human)')
         guards = []
@@ -313,26 +407,31 @@ def rule_WIN(ctx):
                 continue
             for d in G.disjuncts(i.test):
                 if isinstance(d, ast.Compare) and len(d.ops) == 1 and isinstance(d.ops[0], (ast.Gt, ast.GtE)):
-                    guards.append((i, d, _lin_sub(_lin(d.left), _lin(d.comparators[0]))))
+                    guards.append((i, d, _lin_sub(lin(d.left, i.lineno), lin(d.comparators[0], i.lineno))))
                 elif isinstance(d, ast.Compare) and len(d.ops) == 1 and isinstance(d.ops[0], (ast.Lt, ast.LtE)):
-                    guards.append((i, d, _lin_sub(_lin(d.comparators[0]), _lin(d.left))))
-        for st, bit_hi, byte_lo, byte_hi in windows:
-            end = _lin(bit_hi)
+                    guards.append((i, d, _lin_sub(lin(d.comparators[0], i.lineno), lin(d.left, i.lineno))))
+        params = set(f.params())
+        for st, bit_hi, byte_lo, byte_hi, at in windows:
+            end = lin(bit_hi, at)
             if byte_lo is not None:
-                for k, v in _lin_scale(_lin(byte_lo), 8).items():
+                for k, v in _lin_scale(lin(byte_lo, st.lineno), 8).items():
                     end[k] = end.get(k, 0) + v
-            wvars = {k for k in end if k != 1}
+                # fold again now that 8*q and r are together
+                end = lin(ast.parse(' + '.join(f'({v})*({k})' if k != 1 else str(v) for k, v in end.items()) or '0', mode='eval').body, st.lineno) \
+                    if all(isinstance(k, str) and k.isidentifier() or k == 1 for k in end) else end
+            wvars = {k for k in end if k != 1 and not (isinstance(k, str) and (k.startswith('len(') or '.seek(' in k))}
+            unit = -8 if 'frombytes' in ast.unparse(st.value) else -1      # the size of a bytes source counts bytes
             ok = None
+            if not wvars:
+                ok = 'the window ends at the size of the data itself'
             for i, d, form in guards:
-                if i.lineno > st.lineno:
+                if ok is not None or i.lineno > st.lineno:
                     continue
                 rest = {k: v for k, v in form.items() if k not in wvars and k != 1}
-                unit = -8 if 'frombytes' in ast.unparse(st.value) else -1      # the size of a bytes source counts bytes
                 if all(form.get(k, 0) == end[k] for k in wvars) and rest and all(v == unit for v in rest.values()) and form.get(1, 0) == end.get(1, 0):
-                    ok = d
-                    break
+                    ok = norm(d)
             if ok is not None:
-                r.ok(f'{nm}:{norm(st)}', {'instance': nm, 'window_end_bits': _fmt_lin(end), 'guard': norm(ok)})
+                r.ok(f'{nm}:{norm(st)}:{_fmt_lin(end)}', {'instance': nm, 'window_end_bits': _fmt_lin(end), 'guard': ok})
             else:
                 r.fail(f.key, st, f'the {nm.strip("_")} route takes the window ending at bit {_fmt_lin(end)} of the source, but no raising bounds test '
                        f'before it compares exactly that with the size of the data (tests found: {[norm(d) for _, d, _ in guards]}): a window '
@@ -342,16 +441,35 @@ def rule_WIN(ctx):
                 span = _lin_sub(_lin(byte_hi), _lin(byte_lo))
                 names = [k for k in span if k != 1]
                 cover = None
-                if len(names) == 1 and span == {names[0]: 1}:
-                    defs = [x for s in region for x in ast.walk(s) if isinstance(x, ast.Assign) and ast.unparse(x.targets[0]) == names[0]]
-                    if len(defs) == 1:
-                        cover = _ceil_bytes(defs[0].value)
+                where = st
+                if len(names) == 1 and span == {names[0]: 1} and len(defs.get(names[0], [])) == 1:
+                    # relative byte count: [lo : lo + n] with n = (bits + 7) // 8 [- k]
+                    where = defs[names[0]][0]
+                    c = _ceil_bytes(where.value)
+                    if c is not None:
+                        cover = lin(ast.parse(' + '.join(f'({v})*({k})' if k != 1 else str(v) for k, v in c.items()) or '0', mode='eval').body, st.lineno) \
+                            if all(isinstance(k, str) and k.isidentifier() or k == 1 for k in c) else c
+                        target = lin(bit_hi, at)
+                elif not isinstance(byte_hi, ast.Name) and _ceil_bytes(byte_hi) is not None:
+                    # absolute last byte written in place: [lo : (absolute end bit + 7) // 8]
+                    c = _ceil_bytes(byte_hi)
+                    cover = lin(ast.parse(' + '.join(f'({v})*({k})' if k != 1 else str(v) for k, v in c.items()) or '0', mode='eval').body, st.lineno) \
+                        if all(isinstance(k, str) and k.isidentifier() or k == 1 for k in c) else c
+                    target = end
+                elif isinstance(byte_hi, ast.Name) and len(defs.get(byte_hi.id, [])) == 1:
+                    # absolute last byte: [lo : hi] with hi = (absolute end bit + 7) // 8
+                    where = defs[byte_hi.id][0]
+                    c = _ceil_bytes(where.value)
+                    if c is not None:
+                        cover = lin(ast.parse(' + '.join(f'({v})*({k})' if k != 1 else str(v) for k, v in c.items()) or '0', mode='eval').body, st.lineno) \
+                            if all(isinstance(k, str) and k.isidentifier() or k == 1 for k in c) else c
+                        target = end
                 if cover is None:
                     raise AnalysisError(f'{nm}: byte count of the pre-slice is not of the form (bits + 7) // 8 [- k] (needs a human)')
-                if cover == _lin(bit_hi):
-                    r.ok(f'{nm}:byte cover', {'instance': nm, 'bytes_cover_bits': _fmt_lin(cover), 'bit_window_end': _fmt_lin(_lin(bit_hi))})
+                if cover == target:
+                    r.ok(f'{nm}:byte cover', {'instance': nm, 'bytes_cover_bits': _fmt_lin(cover), 'bit_window_end': _fmt_lin(target)})
                 else:
-                    r.fail(f.key, defs[0], f'the byte pre-slice of the {nm.strip("_")} route covers {_fmt_lin(cover)} bits from its first byte but the bit '
-                           f'window taken from it ends at {_fmt_lin(_lin(bit_hi))}: the last bits are cut off silently', loc=f.loc(defs[0]),
+                    r.fail(f.key, where, f'the byte pre-slice of the {nm.strip("_")} route covers {_fmt_lin(cover)} bits but the bit '
+                           f'window taken from it ends at {_fmt_lin(target)}: the last bits are cut off silently', loc=f.loc(where),
                            extra={'props': ['C17', 'C15', 'C08']})
     return r
